@@ -548,9 +548,9 @@ def gen_crystal_world(prop, root, w, tier):
             inplace[sid] = sid[:-1]
     if inplace:
         for dst, src in inplace.items():
-            first = [u for u in units if u[0]["s"] == src]
-            second = [u for u in units if u[0]["s"] == dst]
-            rest = [u for u in units if u[0]["s"] not in (src, dst)]
+            first = [u for u in units if u[0].get("s") == src]
+            second = [u for u in units if u[0].get("s") == dst]
+            rest = [u for u in units if u[0].get("s") not in (src, dst)]
             units = first + [[{"op": "TRANSFORM", "src": src, "dst": dst}]] + second
             # other samples are interleaved around them
             for u in rest:
